@@ -12,10 +12,14 @@ TEXT = ("Thin claim: the round-trip sentence of C04 (flatten -> diff -> store ->
         "write effect (replica state or storage) is edge-dominated by `has_staging() == true` and the false edge returns "
         "Ok(None) ('committing when nothing changed writes nothing and reports no commit'); U2 - in update_object the "
         "tree insertion and the object write are edge-dominated by `digest != winner.digest` and, for array descriptors, "
-        "by the Some edge of the diff whose None is produced exactly when the edit script is empty ('submitting the same "
-        "document twice changes nothing'); U3 - escape / unescape / unflatten use one prefix constant, flatten and "
+        "by the Some edge of the diff whose None is produced exactly when the edit script is empty and the winner is not a "
+        "deletion ('submitting the same document twice changes nothing'); plain objects are compared by digest, array edit "
+        "scripts are recorded whenever they are non-empty; U3 - escape / unescape / unflatten use one prefix constant, flatten and "
         "unflatten classify keys with the same predicates and constants, and the identifier field removed by flatten is "
-        "the one read adds back.")
+        "the one read adds back; U4 - references are uniquely decodable: every prefix on which unflatten dispatches for a "
+        "string value is refused by generate_identifier for user identifiers, generated identifiers hash an injective "
+        "encoding of the path and array descriptor identifiers are an injective function of (owner, key) - three open "
+        "known findings (F10-F12).")
 TRUSTED = ["rustc nightly MIR", "effect summaries", "yavomrs returns an empty script for equal sequences"]
 
 
